@@ -138,7 +138,8 @@ def e_det(c):
 @st.composite
 def s_stat(draw):
     return {"gv": draw(s_gv(sps_max=32, with_extra=True)), "G": draw(st.floats(3, 40)), "NF": draw(st.floats(3, 10)), "seed": draw(st.integers(0, 2 ** 31 - 1)),
-            "npol": draw(st.sampled_from([1, 2])), "logn": draw(st.sampled_from([16, 16, 17, 18])), "nodd": draw(st.sampled_from([0, 0, 0, 0, 0, 0, 0, 0, 1, 1, 2])), "p_in": draw(st.floats(-40, 0)),
+            "npol": draw(st.sampled_from([1, 2])), "logn": draw(st.sampled_from([16, 16, 17, 18])), "nodd": draw(st.sampled_from([0, 0, 0, 0, 0, 0, 0, 0, 1, 1, 2])),
+            "f0_direct": draw(st.one_of(st.none(), st.none(), st.floats(180e12, 240e12))), "p_in": draw(st.floats(-40, 0)),
             "osnr_in": draw(st.one_of(st.none(), st.floats(5, 40)))}
 
 
@@ -157,10 +158,13 @@ def e_stat(c):
     x = optical_signal(s, nz, n_pol=c["npol"])
     G, NF = c["G"], c["NF"]
     g, nf = 10 ** (G / 10), 10 ** (NF / 10)
+    if c.get("f0_direct"):
+        gv(sps=gv.sps, fs=fs, f0=c["f0_direct"])         # the centre frequency given directly (documented **kargs path of gv)
+        check(gv.fs == fs, "gv-reconfigure-changed-fs", "")
     np.random.seed(c["seed"] ^ 0x5A5A)
     B = lib(D.EDFA, strip(x), G, NF)
     ase = B.noise
-    f0 = C_LIGHT / (c["gv"].get("wavelength") or 1550e-9)
+    f0 = c.get("f0_direct") or C_LIGHT / (c["gv"].get("wavelength") or 1550e-9)
     check(abs(gv.f0 - f0) <= 1e-9 * f0, "gv.f0-inconsistent", "")
     P_ase = nf * H_PLANCK * f0 * (g - 1) * fs
     meas = float(np.sum(np.mean(np.abs(ase) ** 2, axis=-1)))
